@@ -20,7 +20,13 @@ type Canon struct {
 	depth int
 	// Cyclic is set when a term deeper than MaxDepth was met (taken as a cyclic term).
 	Cyclic bool
+	// TooBig is set when more than MaxNodes nodes were visited (terms sharing subterms can be exponentially large).
+	TooBig bool
+	nodes  int
 }
+
+// MaxNodes bounds the size of what one canonicaliser converts.
+const MaxNodes = 20000
 
 // MaxDepth bounds the depth of terms the canonicaliser follows.
 const MaxDepth = 2000
@@ -36,6 +42,11 @@ func (c *Canon) Term(t engine.Term) J {
 	if c.depth > MaxDepth {
 		c.Cyclic = true
 		return []J{"a", "$deep"}
+	}
+	c.nodes++
+	if c.nodes > MaxNodes {
+		c.TooBig = true
+		return []J{"a", "$big"}
 	}
 	switch t := c.Env.Resolve(t).(type) {
 	case engine.Variable:
